@@ -37,6 +37,7 @@ PROPS = {
     },
     "C05": {
         "lean_module": "SplProofs.C05",
+        "extra_modules": ["SplProofs.C05Source"],
         "streams": ["C05"],
         "rule": "stream resolve: structured configs of every kind (fixed key; PDA with 0..16 seeds of every kind incl. boundary indices end == len / len+1, 32- and 33-byte slices, forward references; "
                 "external-program PDAs with in/out-of-range index; key-from-data at the last valid / first invalid offset) and uniformly random 35-byte configs over all 256 kind bytes and arbitrary flag bytes; "
@@ -88,6 +89,7 @@ PROPS = {
     },
     "C11": {
         "lean_module": "SplProofs.C11",
+        "extra_modules": ["SplProofs.C11Source"],
         "streams": ["C11"],
         "rule": "stream seeds: every literal length 0..300 (alone and behind another seed, incl. 253-257), every kind at the end of an exactly-32-byte list and one byte over, 0/16/17 seeds, "
                 "uninitialised seeds at every position, random lists; Seed::pack into destination slices of wrong sizes; unpack of random, small-alphabet and structured 32-byte arrays "
